@@ -631,7 +631,7 @@ func TestC08(t *testing.T) {
 	// seeded larger hierarchies
 	total := 2000 / cfg.NShards
 	if cfg.Thorough() {
-		total = 20000 / cfg.NShards
+		total = 100000 / cfg.NShards
 	}
 	rapidLoop(t, rec, "large", total, 100, dl, func(rt *rapid.T) *failure {
 		nc := rapid.IntRange(3, 5).Draw(rt, "nc")
